@@ -142,7 +142,7 @@ CHECKS = {
         "text": "For each (integrator, cadence mode) a 5-snapshot history (manual snapshots with a structural change / step cadence / interval cadence) is written once under strace; the logged lseek/write sequence (checked to reproduce the file byte for byte) "
                 "yields every crash image, i.e. the file after every byte prefix of the modification sequence including the in-place patch of the previous trailer (~11k images per scenario; quick 4 scenarios, thorough 33). "
                 "Each image is opened with Simulationarchive(), the C constructor and Simulation(file) in a worker where a dying process is an observation; an error is demanded iff no snapshot is complete, the exposed set must lie between "
-                "'fully written' and 'content complete', every exposed snapshot must equal the uninterrupted archive's, and the run is restarted from the last exposed snapshot with the same cadence call and must reproduce the uninterrupted archive (count, times, contents).",
+                "'fully written' and 'content complete', every exposed snapshot must equal the uninterrupted archive's, and the run is restarted from the last exposed snapshot with the same cadence call and must reproduce the uninterrupted archive (count, times, contents). Second level: for one first-level image per (scenario, cut class, snapshots exposed) the restart is itself run under strace and every byte prefix of its writes gives a further crash image (quick: 20 restarts / 50k images of the first scenario; thorough: all scenarios), which must expose at least the snapshots readable before the restart, agree with the uninterrupted archive and restart to completion.",
         "note": "Process-crash fault model (completed write(2) calls persist, stdio buffer lost, one write cut at any byte); no block reordering. Second-level crashes during the repair-append are not yet enumerated.",
     },
     "C06": {
